@@ -134,6 +134,8 @@ impl TraitHandler for DebugEnumHandler {
                                 has_fields = true;
                             }
                         } else {
+                            let name_string = name_string.as_deref().unwrap_or("");
+
                             block_token_stream
                                 .extend(quote!(let mut builder = f.debug_tuple(#name_string);));
 
@@ -254,6 +256,8 @@ impl TraitHandler for DebugEnumHandler {
                                 has_fields = true;
                             }
                         } else {
+                            let name_string = name_string.as_deref().unwrap_or("");
+
                             block_token_stream
                                 .extend(quote!(let mut builder = f.debug_tuple(#name_string);));
 
